@@ -393,7 +393,53 @@ def big_sentinels(ctx):
                         for j in np.nonzero(bad.any(axis=1))[0][:3]:
                             ctx.violation(sub, {"kernel": "mean_grp", "word": vals[j].tolist(), "labels": list(labels), "dtype": dtype, "nodata": nd}, {"kind": "bigsent"},
                                           f"mean_grp({vals[j].tolist()} {dtype}, groups={list(labels)}, nodata={nd}) -> {out[j].tolist()}, expected {exp[j].tolist()}")
-    ctx.sample(sub, {"sentinels": [2147483647, -2147483647, 16777217, 99999999, -2147483648], "dtypes": ["int32", "int64"]})
+    # valid cells right next to the marker (a marker is matched exactly, not "to within float32 resolution")
+    near = {2147483647: [2147483520, 2147483646], -2147483648: [-2147483520, -2147483647], 16777217: [16777216, 16777218], 99999999: [99999998, 100000000]}
+    for nd, nb in near.items():
+        for n in (1, 2, 3):
+            idx = sse.word_indices(4, n)
+            N = idx.shape[0]
+            valid = idx != 0
+            vals = sse.render(idx, [nd, nb[0], nb[1], 7]).astype(np.int64)
+            for dtype in ("int32", "int64"):
+                check_rolling(vals, valid, 1, nd, dtype, ctx, sub)
+                ctx.count(sub, evaluations=N, nontrivial=N)
+                for k in (1, 2):
+                    if k > n:
+                        continue
+                    for labels in sse.surjective_labelings(n, k):
+                        out = np.asarray(st.mean_grp(vals.astype(dtype), np.asarray(labels, "int16"), k, nd)).astype(np.float64)
+                        g = np.asarray(labels)
+                        exp = np.empty((N, n))
+                        for grp in range(k):
+                            m = g == grp
+                            c = valid[:, m].sum(axis=1)
+                            sm = np.where(valid[:, m], vals[:, m], 0).sum(axis=1)
+                            exp[:, m] = np.where(c > 0, sm / np.maximum(c, 1), float(np.float32(nd)))[:, None]
+                        bad = ~(np.abs(out - exp) <= 4 * np.spacing(np.abs(exp).astype(np.float32)).astype(np.float64))
+                        ctx.count(sub, evaluations=N, nontrivial=N)
+                        for j in np.nonzero(bad.any(axis=1))[0][:3]:
+                            ctx.violation(sub, {"kernel": "mean_grp", "word": vals[j].tolist(), "labels": list(labels), "dtype": dtype, "nodata": nd}, {"kind": "bigsent"},
+                                          f"mean_grp({vals[j].tolist()} {dtype}, groups={list(labels)}, nodata={nd}) -> {out[j].tolist()}, expected {exp[j].tolist()}")
+    # float32 data one float32 step away from the marker
+    for nd in (-9999.0, 255.0):
+        f = np.float32(nd)
+        nb = [float(np.nextafter(f, np.float32(0))), float(np.nextafter(f, np.float32(nd * 2)))]
+        for n in (1, 2, 3):
+            idx = sse.word_indices(4, n)
+            valid = idx != 0
+            vals = sse.render(idx, [nd, nb[0], nb[1], 7.0])
+            x = vals.astype("float32")
+            out = np.asarray(st.rolling_sum(x, 1, nd)).astype(np.float64)
+            ctx.count(sub, evaluations=len(x), nontrivial=len(x))
+            exp = x.astype(np.float64)
+            bad = (out != exp).any(axis=1)
+            for j in np.nonzero(bad)[0][:3]:
+                ctx.violation(sub, {"kernel": "rolling_sum", "word": x[j].tolist(), "dtype": "float32", "nodata": nd}, {"kind": "bigsent"},
+                              f"rolling_sum({x[j].tolist()} float32, window=1, nodata={nd}) -> {out[j].tolist()}: a window of one cell must echo the cell "
+                              f"(a valid cell one float32 step from the marker is not the marker)")
+    ctx.sample(sub, {"sentinels": [2147483647, -2147483647, 16777217, 99999999, -2147483648], "dtypes": ["int32", "int64"],
+                     "valid_cells_next_to_the_marker": {str(k): v for k, v in near.items()}})
 
 
 def falsy_nodata(ctx):
